@@ -1105,15 +1105,18 @@ func (f *fn) translate() string {
 	if out != "" {
 		out += "\n"
 	}
-	out += fmt.Sprintf("/-- `%s` — %s:%d -/\ndef %s %s : %s :=\n%s", f.spec.Name, strings.TrimPrefix(pos.Filename, "/repo/"), pos.Line, f.leanName, strings.Join(sig, " "), ret, body)
+	out += fmt.Sprintf("/-- `%s` — %s:%d -/\ndef %s %s : %s :=\n%s", f.spec.Name, strings.TrimPrefix(pos.Filename, rootDir+"/"), pos.Line, f.leanName, strings.Join(sig, " "), ret, body)
 	return out
 }
+
+var rootDir = "/repo"
 
 func main() {
 	root := "/repo"
 	if len(os.Args) > 1 {
 		root = os.Args[1]
 	}
+	rootDir = strings.TrimRight(root, "/")
 	if err := os.Chdir(root); err != nil {
 		fmt.Fprintln(os.Stderr, err)
 		os.Exit(2)
